@@ -14,8 +14,15 @@
      unit (the harness uses quarter seconds, on which binary64 arithmetic is exact).
    * Exceptions are values (Prim/Exn.v).  A method returns the state it leaves behind *also* when it raises, so that
      "a rejected update leaves all state unchanged" is a statement about the model and not a convention.
-   * Every `self._broker.propagate(track, event)` is recorded as a call (event, track); the deliveries to the
-     registered callbacks are `trk_deliver` of the calls (the subscriber list does not change during an operation).
+   * Every `self._broker.propagate(track, event)` is recorded as a call (event, track).  This first part (`trk_*`)
+     is the model for subscriber callbacks that RETURN NORMALLY: the deliveries to the registered callbacks are then
+     `trk_deliver` of the calls (the subscriber list does not change during an operation).  The second part of this
+     file (`trkc_*`, "callbacks that may raise") is the general model: every callback has a behaviour (returns / raises
+     an exception value), `propagate` stops at the first callback that raises, `pop_track` swallows a KeyError,
+     everything else escapes through insert_track / update_track / insert_or_update / cleanup / update as in the
+     Python.  With quiet callbacks the general model reduces to the first part (Proofs/TrackerCbProofs.v
+     `trkc_step_quiet`); C12 is stated over the first part, C13-C15 over the general one.  Callbacks that call back
+     into the tracker (re-entrancy) are outside both.
 
    The model follows the code AFTER the two repairs
      fix: cleanup() scans the tracks oldest first in unordered mode as well          (C13)
@@ -338,3 +345,213 @@ Arguments trk_tracker V : clear implicits.
 Arguments trk_op V : clear implicits.
 Arguments trk_result V : clear implicits.
 Arguments trk_call V : clear implicits.
+
+(* ================================================================================================================
+   The same methods when subscriber callbacks may RAISE (the general model; `trk_*` above is its special case "every
+   callback returns normally", see Proofs/TrackerCbProofs.v `trkc_step_quiet`).
+
+   * What a callback does is data of the operation: `e_cb env cb event track` is the outcome of calling callback number
+     `cb` with `track` for `event` during this operation -- it returns, or it raises an exception value.  The
+     environment is an argument of every single operation, so a callback may behave differently from one operation to
+     the next (callbacks with a state of their own are covered); within one operation it is a function of its
+     arguments.  Callbacks do NOT touch the tracker: a callback that calls update/pop_track/cleanup/register_callback
+     of the tracker it is subscribed to (re-entrancy) is outside the model.
+   * `AISUpdateBroker.propagate` calls the matching callbacks in registration order; the first one that raises ends
+     the loop (`brkc_propagate` returns the deliveries made, the raising one included, and the outcome).
+   * `pop_track` wraps `del self._tracks[mmsi]; self._broker.propagate(track, DELETED); return track` in
+     `try ... except KeyError: return None`: a KeyError raised by a DELETED callback is swallowed AFTER the track was
+     deleted (pop_track returns None), any other exception escapes.  `insert_track` / `update_track` propagate after
+     the table was changed and do not catch anything; `insert_or_update` then skips `__set_oldest_timestamp`, and
+     `update` skips `cleanup()`.  `cleanup` advances `oldest_timestamp` during the scan and then pops the expired
+     tracks one by one: an exception escaping from pop_track ends that loop.
+   * `to_be_deleted` is a Python set; `for mmsi in to_be_deleted` visits it in the set's iteration order, which is
+     `e_iter env` of the list in insertion order (CPython: a function of the insertion sequence; the theorems only
+     assume that it enumerates the same elements).
+   Every method returns a `trkc_result`: the state left behind (also when raising), the propagate calls that were
+   started, the callback invocations (deliveries) in order, the returned value (pop_track) and the exception. *)
+Inductive cb_outcome := CbReturn | CbRaise (e : exn).
+
+(* `except KeyError:` (no modelled exception class is a subclass of KeyError) *)
+Definition exn_is_keyerror (e : exn) : bool := match e with Py KeyError => true | _ => false end.
+
+Section TrackerCb.
+  Context {V : Type}.
+  Notation track := (trk_track V).
+  Notation tracker := (trk_tracker V).
+  Notation call := (trk_call V).
+  Definition trk_delivery := (Z * trk_event * track)%type.
+
+  Record trk_env := mkEnv {
+    e_cb : Z -> trk_event -> track -> cb_outcome;    (* callback number -> event -> argument -> what the call does *)
+    e_iter : list Z -> list Z }.                     (* iteration order of a set built by adding these in this order *)
+
+  (* propagate: for destination, callback in self._callbacks: if event == destination: callback(track) *)
+  Fixpoint brkc_propagate (env : trk_env) (b : trk_broker) (tr : track) (ev : trk_event)
+    : list trk_delivery * cb_outcome :=
+    match b with
+    | [] => ([], CbReturn)
+    | (destination, callback) :: r =>
+      if trk_event_eqb ev destination then
+        match e_cb env callback ev tr with
+        | CbReturn => let '(ds, o) := brkc_propagate env r tr ev in ((callback, ev, tr) :: ds, o)
+        | CbRaise e => ([(callback, ev, tr)], CbRaise e)
+        end
+      else brkc_propagate env r tr ev
+    end.
+
+  Record trkc_result := mkCResult {
+    rc_state : tracker;                    (* the state left behind, also when the method raises *)
+    rc_calls : list call;                  (* the propagate calls that were started, in order *)
+    rc_deliv : list trk_delivery;          (* the callback invocations, in order (the raising one is the last) *)
+    rc_ret : option track;                 (* pop_track: the returned track (None = returned None / raised) *)
+    rc_exn : option exn }.
+
+  Definition outcome_exn (o : cb_outcome) : option exn := match o with CbReturn => None | CbRaise e => Some e end.
+
+  (* pop_track:
+       try:
+           mmsi = int(mmsi); track = self._tracks[mmsi]; del self._tracks[mmsi]
+           self._broker.propagate(track, AISTrackEvent.DELETED)
+           return track
+       except KeyError:
+           return None                                                                       *)
+  Definition trkc_pop_track (env : trk_env) (st : tracker) (mmsi : Z) : trkc_result :=
+    match idict_get (t_tracks st) mmsi with
+    | None => mkCResult st [] [] None None                               (* KeyError of the lookup: return None *)
+    | Some tr =>
+      let st1 := with_tracks st (idict_del (t_tracks st) mmsi) in
+      let '(ds, o) := brkc_propagate env (t_broker st1) tr DELETED in
+      match o with
+      | CbReturn => mkCResult st1 [(DELETED, tr)] ds (Some tr) None
+      | CbRaise e =>
+        if exn_is_keyerror e then mkCResult st1 [(DELETED, tr)] ds None None     (* except KeyError: return None *)
+        else mkCResult st1 [(DELETED, tr)] ds None (Some e)
+      end
+    end.
+
+  (* insert_track: self._tracks[mmsi] = new; self._broker.propagate(new, CREATED) *)
+  Definition trkc_insert_track (env : trk_env) (st : tracker) (mmsi : Z) (new : track) : trkc_result :=
+    let st1 := with_tracks st (idict_set (t_tracks st) mmsi new) in
+    let '(ds, o) := brkc_propagate env (t_broker st1) new CREATED in
+    mkCResult st1 [(CREATED, new)] ds None (outcome_exn o).
+
+  (* AISTracker.update_track *)
+  Definition trkc_update_track_m (env : trk_env) (st : tracker) (mmsi : Z) (new : track) : trkc_result :=
+    match idict_get (t_tracks st) mmsi with
+    | None => mkCResult st [] [] None (Some (Py KeyError))
+    | Some old =>
+      if tr_lu new <? tr_lu old then mkCResult st [] [] None (Some (Py ValueError))
+      else
+        let updated := trk_update_track old new in
+        let st1 := with_tracks st (idict_set (idict_del (t_tracks st) mmsi) mmsi updated) in
+        let '(ds, o) := brkc_propagate env (t_broker st1) updated UPDATED in
+        mkCResult st1 [(UPDATED, updated)] ds None (outcome_exn o)
+    end.
+
+  (* insert_or_update: `self.__set_oldest_timestamp(track.last_updated)` is the statement AFTER the if/else, so it is
+     not reached when update_track / insert_track raise *)
+  Definition trkc_insert_or_update (env : trk_env) (st : tracker) (mmsi : Z) (tr : track) : trkc_result :=
+    let r := if idict_mem (t_tracks st) mmsi then trkc_update_track_m env st mmsi tr
+             else trkc_insert_track env st mmsi tr in
+    match rc_exn r with
+    | Some _ => r
+    | None => mkCResult (trk_set_oldest_timestamp (rc_state r) (tr_lu tr)) (rc_calls r) (rc_deliv r) None None
+    end.
+
+  (* for mmsi in to_be_deleted: self.pop_track(mmsi)      (an exception escaping from pop_track ends the loop) *)
+  Fixpoint trkc_pop_all (env : trk_env) (st : tracker) (ms : list Z) : trkc_result :=
+    match ms with
+    | [] => mkCResult st [] [] None None
+    | m :: r =>
+      let r1 := trkc_pop_track env st m in
+      match rc_exn r1 with
+      | Some e => mkCResult (rc_state r1) (rc_calls r1) (rc_deliv r1) None (Some e)
+      | None =>
+        let r2 := trkc_pop_all env (rc_state r1) r in
+        mkCResult (rc_state r2) (rc_calls r1 ++ rc_calls r2) (rc_deliv r1 ++ rc_deliv r2) None (rc_exn r2)
+      end
+    end.
+
+  (* cleanup *)
+  Definition trkc_cleanup (env : trk_env) (st : tracker) (now : Z) : trkc_result :=
+    match t_ttl st with
+    | None => mkCResult st [] [] None None
+    | Some ttl =>
+      match t_oldest st with
+      | None => mkCResult st [] [] None None
+      | Some oldest =>
+        let t := now in
+        if (t - ttl) <? oldest then mkCResult st [] [] None None
+        else
+          let tracks :=
+            if t_ordered st then idict_values (t_tracks st)
+            else trk_sorted (idict_values (t_tracks st)) in
+          let '(oldest', to_be_deleted) := trk_cleanup_scan t ttl tracks (t_oldest st) [] in
+          trkc_pop_all env (with_oldest st oldest') (e_iter env to_be_deleted)
+      end
+    end.
+
+  (* update *)
+  Definition trkc_update (nattrs : nat) (env : trk_env) (st : tracker) (now : Z) (decoded : trk_msg V)
+             (ts_epoch_ms : option Z) : trkc_result :=
+    let mmsi := m_mmsi decoded in
+    let tr := trk_msg_to_track nattrs decoded ts_epoch_ms now in
+    match trk_ensure_timestamp_constraints st (tr_lu tr) with
+    | (st1, Some e) => mkCResult st1 [] [] None (Some e)
+    | (st1, None) =>
+      let r2 := trkc_insert_or_update env st1 mmsi tr in
+      match rc_exn r2 with
+      | Some _ => r2                                              (* cleanup() is not reached *)
+      | None =>
+        let r3 := trkc_cleanup env (rc_state r2) now in
+        mkCResult (rc_state r3) (rc_calls r2 ++ rc_calls r3) (rc_deliv r2 ++ rc_deliv r3) None (rc_exn r3)
+      end
+    end.
+
+  Definition trkc_step (nattrs : nat) (env : trk_env) (st : tracker) (op : trk_op V) : trkc_result :=
+    match op with
+    | OpUpdate now decoded ts => trkc_update nattrs env st now decoded ts
+    | OpCleanup now => trkc_cleanup env st now
+    | OpPop mmsi => trkc_pop_track env st mmsi
+    | OpAttach ev cb => mkCResult (with_broker st (brk_attach (t_broker st) ev cb)) [] [] None None
+    | OpDetach ev cb => mkCResult (with_broker st (brk_detach (t_broker st) ev cb)) [] [] None None
+    end.
+
+  (* a history: every operation with the behaviour of the callbacks (and of the set iteration) during it *)
+  Fixpoint trkc_run (nattrs : nat) (st : tracker) (h : list (trk_env * trk_op V)) : tracker * list trkc_result :=
+    match h with
+    | [] => (st, [])
+    | (env, op) :: r =>
+      let res := trkc_step nattrs env st op in
+      let '(st', rs) := trkc_run nattrs (rc_state res) r in
+      (st', res :: rs)
+    end.
+
+  (* ---- finite descriptions of an environment (the driver's line protocol, the Examples) ---- *)
+  (* (callback, event, mmsi or None = every track, exception): calling `callback` for `event` with a track of that
+     MMSI raises the exception; the first matching rule decides; no rule: the callback returns *)
+  Definition trk_rule := (Z * trk_event * option Z * exn)%type.
+
+  Fixpoint trk_cb_of_rules (rules : list trk_rule) (cb : Z) (ev : trk_event) (tr : track) : cb_outcome :=
+    match rules with
+    | [] => CbReturn
+    | (c, e, m, x) :: r =>
+      if (cb =? c) && trk_event_eqb ev e && (match m with None => true | Some m' => tr_mmsi tr =? m' end)
+      then CbRaise x else trk_cb_of_rules r cb ev tr
+    end.
+
+  (* the elements of [l]: first those named by [hint], in the order of [hint], then the others in their own order *)
+  Definition trk_iter_by_hint (hint l : list Z) : list Z :=
+    filter (fun x => existsb (Z.eqb x) l) (fold_left (fun s x => trk_set_add x s) hint [])
+    ++ filter (fun x => negb (existsb (Z.eqb x) hint)) l.
+
+  Definition trk_env_of (rules : list trk_rule) (hint : list Z) : trk_env :=
+    mkEnv (trk_cb_of_rules rules) (trk_iter_by_hint hint).
+
+  (* every callback returns, the set is visited in insertion order *)
+  Definition trk_env_quiet : trk_env := mkEnv (fun _ _ _ => CbReturn) (fun l => l).
+End TrackerCb.
+
+Arguments trk_env V : clear implicits.
+Arguments trkc_result V : clear implicits.
+Arguments trk_delivery V : clear implicits.
